@@ -282,6 +282,14 @@ def run(rep, tier):
     cs = methods.get("clear_snapshot")
     if cs is not None:
         popped_fields = [f["name"] for f in fields if f["name"] not in (live, snap)]
+        r5.instance("clear:local", where(cs["body"]))
+        for x in walk(cs["body"]):
+            if kind(x) in ("MethodCall", "Index") and not any("debug_assert" in e for e in (x.get("exp") or [])):
+                f0 = vec_field(x["recv"]) if kind(x) == "MethodCall" else vec_field(x["base"])
+                if f0 == live:
+                    r5.violation("clear:local", where(x), "clear_snapshot looks at the live vector (%s): discarding a snapshot "
+                                 "depends only on what the two snapshot entries recorded, and leaves the contents alone"
+                                 % hirq.expr_text(x)[:50])
         r5.instance("clear:adjust", where(cs["body"]))
         for (ev, out) in exits(PathEnum(cs).paths()):
             consumed = False
